@@ -30,7 +30,6 @@ def ofVal : Val → Sexp
 
 def ofExc : Exc → Sexp
   | .attributeError => sym "AttributeError"
-  | .keyError => sym "KeyError"
   | .metaE => sym "Meta"
   | .metaModelE => sym "MetaModel"
   | .unknownClass => sym "UnknownClass"
